@@ -100,6 +100,9 @@ def gen_cases(tier: str, seed: int):
                      ["create_table", "DB2", "S1", "T1", [["A", "INT", False]], None, False, True, False],
                      ["create_table", "DB1", "S2", "ofs_t", [["A", "VARCHAR(255)", False]], None, False, True, False],
                      ["comment_on", "DB2", "S1", "ofs_t", "new"], ["add_column", "DB2", "S1", "ofs_t", "C", "VARCHAR(10)"]]}
+    yield {"steps": [["create_table", "DB1", "S2", "T1", [["A", "VARCHAR(10)", False]], "a table", False, False, False], ["create_view", "DB1", "S2", "V1", "T1"],
+                     ["comment_on_view", "DB1", "S2", "V1", "about a view"], ["create_view", "DB1", "S2", "V2", "T1"], ["comment_on_view", "DB1", "S2", "V1", "other"],
+                     ["drop_view", "DB1", "S2", "V1"], ["create_view", "DB1", "S2", "V1", "T1"]]}
     wide = [["A", "VARCHAR(10)", False], ["B", "VARCHAR(255)", False], ["N", "NUMBER(10)", False]]
     for again in (["create_table", "DB1", "S2", "T1", [["A", "VARCHAR", False], ["N", "INT", False]], None, False, False, False],
                   ["ctas", "DB1", "S2", "T1", "DB1", "S1", "T2", False], ["clone", "DB1", "S2", "T1", "DB1", "S1", "T2", False]):
@@ -168,6 +171,8 @@ def gen_cases(tier: str, seed: int):
                 steps.append([r.choice(["comment_on", "set_comment"]), db, sc, t, r.choice(["new", "other", ""])])
             elif x < 0.885:
                 steps.append(["create_view", db, sc, r.choice(["V1", "V2"] + TABS), r.choice(TABS)])
+                if r.random() < 0.5:
+                    steps.append(["comment_on_view", db, sc, steps[-1][3], r.choice(["about a view", "other", ""])])
             elif x < 0.90:
                 # the schema goes (with everything in it) and comes back; a name of it is used again straight away
                 steps.append(["recreate_schema", db, sc, "-"])
@@ -331,6 +336,18 @@ def _run(case: dict, env: core.Env, fs: Any) -> None:
                 continue
             cm = st[4]
             sql = f"COMMENT ON TABLE {fq} IS '{cm}'" if op == "comment_on" else f"ALTER TABLE {fq} SET COMMENT = '{cm}'"
+        elif op == "comment_on_view":
+            if not exists or model[key]["kind"] != "view" or not case.get("via_use"):
+                # (sqlglot does not parse a qualified name after COMMENT ON VIEW: the statement is only written with the bare name)
+                if not exists or model[key]["kind"] != "view":
+                    continue
+                # from the session that made the view's schema current
+                ucur2 = ucon.cursor()
+                if ucon_at[0] != (st[1], st[2]):
+                    ucur2.execute(f"USE SCHEMA {st[1]}.{_qp(st[2])}")
+                    ucon_at[0] = (st[1], st[2])
+                cur = ucur2
+            sql = f"COMMENT ON VIEW {_qp(st[3])} IS '{st[4]}'"
         elif op == "create_view":
             _, db, sc, v, t = st
             src = (db, sc, t)
@@ -449,7 +466,7 @@ def _run(case: dict, env: core.Env, fs: Any) -> None:
                 env.count("reused_names")
             ever.add(k2)
             altered = True
-        elif op in ("comment_on", "set_comment"):
+        elif op in ("comment_on", "set_comment", "comment_on_view"):
             model[key]["comment"] = st[4]
             altered = True
         hist = f"step {si} {sql!r}"
@@ -525,7 +542,7 @@ def _observe(env: core.Env, conns: dict, model: dict, hist: str, op: str) -> boo
             if rows2 is None or sorted(rows2, key=repr) != home[("columns", db)]:
                 bad("information_schema.columns", "differs-by-session-context", f"{db}")
             continue
-        want = sorted((k[0], k[1], k[2], "BASE TABLE" if o["kind"] == "table" else "VIEW", o["comment"] if o["kind"] == "table" else None) for k, o in objs.items())
+        want = sorted((k[0], k[1], k[2], "BASE TABLE" if o["kind"] == "table" else "VIEW", o["comment"]) for k, o in objs.items())
         got = sorted(rows, key=repr)
         gset, wset = {r[:4] for r in got}, {w[:4] for w in want}
         if gset != wset:
